@@ -36,14 +36,14 @@ ENTRIES = {
              "least one exists; a new sample needs >= k remaining plates; each prefix has counts <= k and at most one incomplete sample; a batch "
              "of m*k plates has 0 or k per sample; the policy runs dry only at such a boundary; multi-sample plates refused; select_next_plate's "
              "arguments and result form a step of that history. Tied to the code by comparing eligible id lists at every state of random "
-             "histories run through the real KPerSamplePlatePolicy and the real select_next_plate on real Screens.",
+             "histories run through the real KPerSamplePlatePolicy and the real select_next_plate on real Screens. In addition the WHOLE method filter_eligible_plates is re-translated from /repo's source into Gallina on every run (harness/py2gal.py) and C16_model_is_source proves the model equal to the translation for all inputs.",
         note="Trusted: Coq kernel, extraction, OCaml driver, harness. Assumes plates do not become observed inside a batch. Screen id encoding "
              "and ScoresHolder storage modelled by their effect."),
     "C17": dict(
         text="Theorems (all seed>=0, b>=0, t>=1, n>=0, 0<=chain_index<n_chains): the call trace is reset, set_rng(key (seed,[chain_index])), b "
              "steps, then n x (t steps, record); exactly b+n*t steps; records exactly after steps b+t..b+n*t; holder ends complete; the key is "
              "a function of (seed, chain_index), injective in the index and independent of b, t, n; VI models asked once for n. Tied to the code "
-             "by comparing the full event trace of the real sample() on a counting stub, plus key and first draws of the handed Generator.",
+             "by comparing the full event trace of the real sample() on a counting stub, plus key and first draws of the handed Generator. In addition the WHOLE function batchie.sampling.sample is re-translated from /repo's source into Gallina on every run (harness/py2gal.py) and C17_model_is_source proves the model equal to the translation for all arguments.",
         note="Partial: non-overlap of PCG64 streams for distinct spawn keys is numpy's guarantee (first draws checked only). Negative "
              "chain_index aliases chain n_chains-1 (observation outside the quantifier). Trusted: Coq kernel, extraction, driver, harness."),
     "C10": dict(
@@ -127,7 +127,7 @@ ENTRIES = {
              "unobserved views split the screen by its mask (None iff empty), plates partition the rows; to_screen keeps the rows and never "
              "fails on constructor-built parents; the unique filter keeps exactly the first row per (sample id, treatment ids) key; views of "
              "different parents are refused; by induction on the op tree, every evaluated composition selects exactly the index-set reference "
-             "semantics. Tied to the code by running the extracted model and the real ScreenSubset / Plate / Screen API on the same random trees.",
+             "semantics. Tied to the code by running the extracted model and the real ScreenSubset / Plate / Screen API on the same random trees; single_treatment_effects is checked as one more per-row attribute of every view.",
         note="Trusted: Coq kernel, extraction, driver, harness. numpy boolean indexing, np.where, fancy assignment and np.unique(return_index) "
              "first-occurrence behaviour are modelled by their documented effect and exercised on every case. Parent identity is a tag. Mutation "
              "and aliasing are checked only at run time by pred. to_screen may renumber ids; rows are what is promised. single_treatment_effects, "
@@ -169,7 +169,7 @@ ENTRIES = {
              "experiment-space sizes are frozen over every history on either half of any split; same name gives same id across stages. Refuted by "
              "vm_compute for the variant without mappings (the pre-repair code). The extracted model is compared after every operation with the "
              "real code on simulations prepared by the real hold-out (recorded rng), incl. h5py save/load and the reveal_plate CLI; the variant "
-             "the tree implements is detected from behaviour; the three former witnesses are corpus cases.",
+             "the tree implements is detected from behaviour; the three former witnesses are corpus cases. The prepare_retrospective_simulation CLI main() is run in-process with random generator / smoother / initial-plate options and the training / test screens it writes must agree on every id (implementation-only predicate).",
         note="Trusted: Coq kernel, extraction, OCaml driver, harness. HDF5 storage is modelled as the identity. The hold-out selection is recorded "
              "from the real rng. The renumbering defect found here (reveal/mask/unmask dropped the mappings) was repaired in /repo (fix: e414171). "
              "predict_stable is a corollary stated in prose (predictions index embeddings by id; C09 proves row-wise prediction)."),
@@ -183,7 +183,7 @@ ENTRIES = {
              "sweep order equals the call order read from the source on every run, duplicate-free and complete; get_model_state reproduces Mu and "
              "prec; the triangular solves give Q m = b and L^T(x-m) = z. Refuted and shown on the real code: a self-combination row leaves the "
              "cache stale. Tied to the code by running the extracted model per step function from the implementation's own pre-block state on 2-4 "
-             "samples, 2-5 treatments, D <= 3, 1-3 steps, with recorded draw stubs, plus a numpy log-joint predicate.",
+             "samples, 2-5 treatments, D <= 3, 1-3 steps, with recorded draw stubs (one case in ten with a reset_model() between two sweeps), plus a numpy log-joint predicate. The horseshoe auxiliary blocks (phiaux, phi, etaaux, eta of _prec_V0/V2/V1_step) are proved to be the full conditionals of the complete joint (half-Cauchy scales in their gamma-mixture form, with the code's +1e-3 rate jitter as an explicit tilt).",
         note="Trusted: Coq kernel, extraction, OCaml driver (libm sqrt oracle), Python harness; numpy normal/gamma/cholesky assumed to do what "
              "their arguments name; float rounding abstracted (tolerance 1e-4*scale); default model options only; horseshoe phi/eta steps compared "
              "and predicate-checked but not proved; KNOWN FINDING self-combination-row-stale-cache (KNOWN_FINDINGS.json); with zero observations "
@@ -226,7 +226,7 @@ ENTRIES = {
              "every sample and treatment with one unobserved plate, combination filter exact, common size (Fixed/Optimal) and optimality of the "
              "optimal size, per-sample minimum (NPlatePerCellLine), merges within one sample, MergeMin stop rule, TopBottom halving, for all "
              "screens, parameters and oracle answers for which the operation returns. The pre-repair logic of the two classes found defective is "
-             "kept behind a model switch and refuted by witnesses. Tied to the code by the same recorded-randomness correspondence as C11 plus "
+             "kept behind a model switch and refuted by witnesses. SparseCover is proved to terminate for every contract-obeying answer stream within #samples + #distinct treatment ids draws; SampleSegregating plates of one sample differ in size by at most one; Pairwise single-agent rows join a combination plate of their own sample. Tied to the code by the same recorded-randomness correspondence as C11 plus "
              "each shape clause evaluated on the real output.",
         note="Same trusted base as C11; heapq is modelled by its contract, not its array layout; no bound on SparseCover iterations is stated (the "
              "model recurses on the recorded answers). The two defects found here (SampleSegregating lumped small samples into plate ''; "
